@@ -240,7 +240,9 @@ pub fn gen_mode(rng: &mut Rng, spec: &WorldSpec, opts: &mut RunOpts, allow_named
             let mut edits = vec![];
             for t in &spec.targets {
                 if rng.chance(55, 100) {
-                    edits.push(format!("{}/file.txt", t.path));
+                    // the file other targets may name in `uses`, or another file of the target that nobody names
+                    // (then the target itself is affected while a target that uses only `<t>/file.txt` is not)
+                    edits.push(if rng.chance(1, 2) { format!("{}/file.txt", t.path) } else { format!("{}/other.txt", t.path) });
                 }
             }
             for (f, _) in &spec.files {
